@@ -130,7 +130,10 @@ def run_case(case, drv):
             if m_ == "fuel":
                 res.tag("rd_tie_fuel")
                 continue
-            got = outcome(lambda w=w, left=left: tree_json(rd0.get_parse_tree(w, left)), limit=2.0)
+            got = outcome(lambda w=w, left=left: tree_json(rd0.get_parse_tree(w, left)), limit=2.0, retry=False)
+            if got[0] == "timeout":
+                res.tag("rd_tie_timeout")
+                continue
             res.corr += 1
             want_ = ("exc", "NotParsableException") if m_ is None else ("ok", m_)
             if got != want_:
@@ -146,7 +149,7 @@ def run_case(case, drv):
             if m is None:
                 continue
             for left in (True, False):
-                got = outcome(lambda w=w, left=left: rd.get_parse_tree(w, left), limit=0.5)
+                got = outcome(lambda w=w, left=left: rd.get_parse_tree(w, left), limit=0.5, retry=False)
                 res.evals += 1
                 if got[0] == "timeout" or got == ("exc", "RecursionError"):
                     res.tag("rd_timeout")
